@@ -267,6 +267,34 @@ def _flag_no_operand_writes():
     return True
 
 
+def _flag_no_cached_arrays():
+    """no helper of the array backends hands out a cached / shared array: the operand-write scan treats the arrays
+    returned by str_to_char_array, kg_asarray, np.array(...) as fresh objects"""
+    bad = []
+    for rel in ("klongpy/backends/numpy_backend.py", "klongpy/backends/base.py"):
+        m = astlib.module(rel)
+        for n in ast.walk(m):
+            if isinstance(n, (ast.FunctionDef, ast.AsyncFunctionDef)):
+                for d in n.decorator_list:
+                    src = ast.unparse(d)
+                    if "cache" in src.lower() or "memo" in src.lower():
+                        bad.append("%s: @%s on %s" % (rel, src, n.name))
+        scopes = [m] + [c for c in m.body if isinstance(c, ast.ClassDef)]
+        for sc in scopes:
+            for st in sc.body:
+                if isinstance(st, (ast.Assign, ast.AnnAssign)):
+                    v = st.value
+                    is_store = isinstance(v, (ast.Dict, ast.List, ast.Set)) or \
+                        (isinstance(v, ast.Call) and getattr(v.func, "id", getattr(v.func, "attr", "")) in
+                         ("dict", "list", "set", "OrderedDict", "defaultdict", "WeakValueDictionary", "WeakKeyDictionary", "LRUCache"))
+                    names = [ast.unparse(t) for t in (st.targets if isinstance(st, ast.Assign) else [st.target])]
+                    if is_store and not all(nm.startswith("__all__") for nm in names):
+                        bad.append("%s: module/class level container %s" % (rel, ",".join(names)))
+    if bad:
+        raise ShapeError("; ".join(bad[:3]))
+    return True
+
+
 def _flag_floor_guard():
     """floor_to_int keeps the real unless |floor| < 2.0**63 (strictly): the real 2^63 itself does not fit int64"""
     cls = astlib.find_class(astlib.module("klongpy/backends/base.py"), "BackendProvider")
@@ -305,7 +333,8 @@ def generate():
     for name, fn in (("reverse_guards_atoms", _flag_reverse), ("rotate_uses_axis0", _flag_rotate),
                      ("split_by_segment_size", _flag_split), ("reshape_guards_symbols", _flag_reshape),
                      ("kg_equal_ints_exact", _flag_ints_exact), ("kg_equal_no_shape_exit", _flag_no_shape_exit),
-                     ("verbs_do_not_write_operands", _flag_no_operand_writes), ("floor_guard_strictly_below_2_63", _flag_floor_guard)):
+                     ("verbs_do_not_write_operands", _flag_no_operand_writes), ("floor_guard_strictly_below_2_63", _flag_floor_guard),
+                     ("no_cached_arrays_in_backends", _flag_no_cached_arrays)):
         v, why = astlib.try_flag(fn)
         out.append("Definition %s : bool := %s.%s" % (name, astlib.coq_bool(bool(v)),
                                                     "" if why is None else "  (* shape not recognised: %s *)" % why))
@@ -355,7 +384,8 @@ def universe():
             [1, [2.5]], [[1, 2], [3.5]],
             ["a", "bc"], ["ab", "cd"], [1, "a"], [Y("a"), Y("b")], [Y("a"), 1], [[], ""], ["", "a"], [1, "a", Y("s"), C("z")],
             [[1, 2], "ab"], [[1, "a"], [2, "b"]], [["ab"], ["cd"]], ["ab", [1, 2], 3],
-            [0, 1], [7, 0, 2], ["x", 1], [C("x"), 1, 3], ["xx", 1], [42, 0, 1], [[9, 9], 1], [2.5, 1], [[9, 9], 0, 2], ["xx", 0, 3]]
+            [0, 1], [7, 0, 2], ["x", 1], [C("x"), 1, 3], ["xx", 1], [42, 0, 1], [[9, 9], 1], [2.5, 1], [[9, 9], 0, 2], ["xx", 0, 3],
+            [1, "a", 1.0], [1.0, "a", 1, "a"], [[1, 2], [1.0, 2.0], "x"], [[1, 2], "x", [1.0, 2.0], [1, 2]]]
     u += [lit(v) for v in vecs]
     return u
 
@@ -477,6 +507,10 @@ texts = json.load(sys.stdin)
 klong = KlongInterpreter()
 out = []
 def one(t):
+    global klong
+    if t == "@@new":       # a second interpreter in the same process
+        klong = KlongInterpreter()
+        return "(new)"
     try:
         signal.alarm(30)
         v = klong(t)
@@ -824,6 +858,95 @@ def boundary_cases(keys_m, keys_d):
     return cs
 
 
+# ---- a WRITING verb (Amend, Amend-in-Depth) followed by reads of the same literal text / an equal value, in one
+# interpreter and across two interpreters of one process: nothing a verb writes may be shared with a later operand
+LONG_TEXTS = ["".join(chr(97 + (i * 7) % 26) for i in range(n)) for n in (64, 65, 200)] + ["abcdefg"]
+LONG_LISTS = [list(range(1, 65)), [(i * 5) % 17 for i in range(70)], [1, "a"] * 33, [[i, i + 1] for i in range(64)]]
+
+
+def write_then_read_programs(keys_m, keys_d, tier):
+    progs = []
+    am, amd = keys_d.get("eval_dyad_amend"), keys_d.get("eval_dyad_amend_in_depth")
+    targets = [S(t) for t in LONG_TEXTS] + [lit(l) for l in LONG_LISTS]
+    for T in targets:
+        tt = render(T)
+        writers = []
+        if am:
+            if T[0] == "s":
+                writers += ["(%s)%s([0cX 0])" % (tt, am), "(%s)%s([\"XY\" 1 5])" % (tt, am)]
+            else:
+                writers += ["(%s)%s([99 0 2])" % (tt, am), "(%s)%s([\"x\" 1])" % (tt, am)]
+        if amd and T[0] == "l":
+            path = "0 1" if T[1] and T[1][0][0] == "l" else "0"
+            writers += ["(%s)%s([77 %s])" % (tt, amd, path)]
+        readers, calls = [], []
+        def add(stmt, q):
+            readers.append(stmt)
+            calls.append(q)
+        for f in MODELLED_MONADS:
+            k = keys_m.get(f)
+            if k and not hangs(f, T, None) and f not in ("eval_monad_enumerate", "eval_monad_expand_where"):
+                add("%s(%s)" % (k, tt), sx(["m", f, to_sx(T)]))
+        partners = [I(3), I(-3), lit([0, 2]), lit([2, 3]), S("bc"), I(1)] if tier == "thorough" else [I(3), lit([0, 2]), S("bc")]
+        for f in MODELLED_DYADS:
+            k = keys_d.get(f)
+            if not k:
+                continue
+            for p_ in partners:
+                if not hangs(f, p_, T):
+                    add("(%s)%s(%s)" % (render(p_), k, tt), sx(["d", f, to_sx(p_), to_sx(T)]))
+                if not hangs(f, T, p_) and f not in COUNT_LEFT:
+                    add("(%s)%s(%s)" % (tt, k, render(p_)), sx(["d", f, to_sx(T), to_sx(p_)]))
+            if f in ("eval_dyad_match", "eval_dyad_find", "eval_dyad_join", "eval_dyad_equal"):
+                add("(%s)%s(%s)" % (tt, k, tt), sx(["d", f, to_sx(T), to_sx(T)]))
+        for w in writers:
+            for sep in ([], ["@@new"]):
+                stmts = [w] + sep + readers
+                off = 1 + len(sep)
+                progs.append(Program("write-then-read" + ("-2-interpreters" if sep else ""), "eval_dyad_amend", stmts,
+                                     calls=[(off + i, q) for i, q in enumerate(calls)]))
+    return progs
+
+
+# ---- operands bound to VARIABLES (the expression compiler takes over for flat numeric arrays): the same values must give
+# the same result as the same expression over literals
+VAR_VERBS = ["+", "-", "*", "<", ">", "=", "&", "|"]
+VAR_OPERANDS = [lit([1, 2, 3, 4]), lit([4, 3, 2, 1]), lit([1.5, 2.5, 0.5, 4.0]), I(2), R(2.5), lit([0, 1, 0, 1])]
+
+
+def variable_operand_programs(tier):
+    """[(statements, literal expression)]"""
+    out = []
+    for x in VAR_OPERANDS:
+        for y in VAR_OPERANDS:
+            tx, ty = render(x), render(y)
+            for v in VAR_VERBS:
+                out.append((["a::%s" % tx, "b::%s" % ty, "a%sb" % v], "(%s)%s(%s)" % (tx, v, ty)))
+    pairs = [(VAR_OPERANDS[0], VAR_OPERANDS[1]), (VAR_OPERANDS[0], VAR_OPERANDS[3]), (VAR_OPERANDS[2], VAR_OPERANDS[0]), (VAR_OPERANDS[5], VAR_OPERANDS[1])]
+    if tier != "thorough":
+        pairs = pairs[:2]
+    for x, y in pairs:
+        tx, ty = render(x), render(y)
+        for v1 in VAR_VERBS:
+            for v2 in VAR_VERBS:
+                for v3 in VAR_VERBS:
+                    out.append((["a::%s" % tx, "b::%s" % ty, "(a%sb)%s(a%sb)" % (v1, v2, v3), "(a%s1)%s(b%s2)" % (v1, v2, v3)],
+                                "((%s)%s(%s))%s((%s)%s(%s))" % (tx, v1, ty, v2, tx, v3, ty)))
+    return out
+
+
+def evaluate_variable_operands(chk, out, tier):
+    items = variable_operand_programs(tier)
+    res = run_impl([st for st, _ in items])
+    lit_res = run_impl([e for _, e in items])
+    for (st, e), r, lr in zip(items, res, lit_res):
+        chk.count("evaluations")
+        chk.count("variable_operand_programs")
+        if r[2] != lr:
+            out.prop_bad.append({"verb": "variables", "function": "variable-operands", "klong": "; ".join(st[:3]),
+                                 "expected": lr, "actual": r[2], "why": "the same values held in variables give another result than the literals (%s)" % e})
+
+
 def quick_cases(keys_m, keys_d, U, rng, n_sample):
     cs = all_cases(keys_m, keys_d, U, dyads=[])
     rest = []
@@ -1046,6 +1169,11 @@ def run(tier, replay=None):
     progs = repeat_programs(keys_m, keys_d, tier)
     for i in range(0, len(progs), 6000):
         evaluate_programs(chk, progs[i:i + 6000], out)
+    # step 3d: a writing verb followed by reads of an equal value; operands held in variables
+    progs = write_then_read_programs(keys_m, keys_d, tier)
+    for i in range(0, len(progs), 400):
+        evaluate_programs(chk, progs[i:i + 400], out)
+    evaluate_variable_operands(chk, out, tier)
     for k, h in out.known_hits.items():
         chk.finding("C01-" + k, "known-finding class %s: %s gives %s, reference prescribes %s" % (k, h["klong"], h["actual"], h["expected"]), h)
 
